@@ -247,7 +247,7 @@ int main(int argc, char** argv)
   signal(SIGFPE, on_signal);
   signal(SIGALRM, on_signal);
   static char obuf[1 << 16];
-  setvbuf(stdout, obuf, _IOFBF, sizeof(obuf));
+  setvbuf(stdout, obuf, _IOLBF, sizeof(obuf)); /* line buffered: a crash must not lose earlier results */
 
   CMR* cmr = NULL;
   if (CMRcreateEnvironment(&cmr)) return 3;
